@@ -323,6 +323,7 @@ struct Ed<'a> {
     errors: Vec<String>,
     in_closure_inputs: bool,
     wild_n: usize,
+    rename_self: bool,
 }
 
 impl<'a> Ed<'a> {
@@ -346,6 +347,7 @@ impl<'a> Ed<'a> {
             errors: vec![],
             in_closure_inputs: false,
             wild_n: 0,
+            rename_self: false,
         }
     }
     fn push(&mut self, start: usize, end: usize, text: impl Into<String>, kind: &'static str, swallow: bool) {
@@ -475,6 +477,19 @@ impl<'a, 'ast> Visit<'ast> for Ed<'a> {
     fn visit_arm(&mut self, e: &'ast syn::Arm) {
         self.node(e);
         visit::visit_arm(self, e);
+    }
+    fn visit_expr_path(&mut self, e: &'ast syn::ExprPath) {
+        // E16: `mut self` receivers are unsupported by Verus: `fn f(mut self)` becomes `fn f(self)`
+        // with `let mut vx_self = self;` and every `self` of the body renamed
+        if self.rename_self && e.qself.is_none() && e.path.is_ident("self") {
+            let r = e.span().byte_range();
+            self.push(r.start, r.end, "vx_self", "E16-mut-self", false);
+        }
+        visit::visit_expr_path(self, e);
+    }
+    fn visit_field_pat(&mut self, e: &'ast syn::FieldPat) {
+        self.node(e);
+        visit::visit_field_pat(self, e);
     }
     fn visit_field_value(&mut self, e: &'ast syn::FieldValue) {
         self.node(e);
@@ -1270,6 +1285,18 @@ fn main() {
                             syn::ReturnType::Default => die(&format!("{ctx}: @@ret on a function without return type")),
                         }
                     }
+                    let mut mut_self_pre = String::new();
+                    if let Some(syn::FnArg::Receiver(rc)) = sig.inputs.first() {
+                        if rc.reference.is_none() {
+                            if let Some(m) = &rc.mutability {
+                                let r = m.span().byte_range();
+                                let e = rc.self_token.span().byte_range().start;
+                                ed.push(r.start, e, "", "E16-mut-self", false);
+                                ed.rename_self = true;
+                                mut_self_pre = "        let mut vx_self = self;\n".to_string();
+                            }
+                        }
+                    }
                     // visit signature parts + body for automatic edits
                     for inp in &sig.inputs {
                         ed.visit_fn_arg(inp);
@@ -1312,6 +1339,7 @@ fn main() {
                         s.push_str(spec);
                         s.push_str("{\n");
                         if !stub_this {
+                            s.push_str(&mut_self_pre);
                             s.push_str(&d.pre);
                         }
                         s.push_str(&body);
